@@ -12,6 +12,7 @@ package c04
 import (
 	"context"
 	"fmt"
+	"io"
 	"net"
 	"runtime"
 	"runtime/debug"
@@ -41,7 +42,15 @@ const (
 // fault kinds, in the order of the case index
 // "wrlost" is the half-dead connection: exactly the k-th Write fails, reads
 // keep working and the peer keeps answering as if everything had arrived.
-var kinds = []string{"eof", "wrbreak", "rdfail", "wrfail", "cancel-silent", "cancel-live", "cancel-blocked", "wrlost"}
+var kinds = []string{"eof", "wrbreak", "rdfail", "wrfail", "cancel-silent", "cancel-live", "cancel-blocked", "wrlost", "cancel-nodl", "precancel"}
+
+// "cancel-nodl": the handshake runs on a transport without deadline methods
+// (the library cannot interrupt anything), the scripted peer answers on demand
+// so that nothing ever blocks, and the context is cancelled exactly at the k-th
+// connection operation.  "precancel" (k = 0 only): the context is already
+// cancelled when the constructor is called, same transport.  The constructor
+// must still report the cancellation.
+func noDeadlineKind(kind string) bool { return kind == "cancel-nodl" || kind == "precancel" }
 
 func byteKind(kind string) bool { return kind == "eof" || kind == "wrbreak" }
 
@@ -237,7 +246,11 @@ func (r *run) construct(done chan struct{}) {
 			r.panicMsg = fmt.Sprintf("panic in the session constructor: %v\n%s", v, core.TrimStack(st))
 		}
 	}()
-	r.sess, r.err = r.a.call(r.ctx, r.lib, r.log)
+	var rw io.ReadWriter = r.lib
+	if noDeadlineKind(r.f.Kind) && !r.h.TLS {
+		rw = bufconn.NoDeadline{C: r.lib}
+	}
+	r.sess, r.err = r.a.call(r.ctx, rw, r.log)
 	r.returned = true
 }
 
@@ -292,6 +305,19 @@ func (r *run) execute() {
 		fp.FailRead = r.f.K + 1
 	case "wrfail", "wrlost":
 		fp.FailWrite = r.f.K + 1
+	case "cancel-nodl":
+		if !r.h.TLS {
+			fp.OnOp = r.f.K + 1
+			fp.Action = func() {
+				r.stop()
+				r.cancelCalled.Store(true)
+			}
+		}
+	case "precancel":
+		if !r.h.TLS && r.f.K == 0 {
+			r.stop()
+			r.cancelCalled.Store(true)
+		}
 	case "cancel-silent", "cancel-live":
 		fp.OnOp = r.f.K + 1
 		fp.Action = func() {
@@ -427,6 +453,7 @@ func (r *run) permanentlyBlocked() (why, at string) {
 
 type golden struct {
 	R, W, NR, NW, NOps, NCalls int
+	TLS                        bool
 	OK                         bool // nil error and Ready
 	Err                        string
 	Steps                      []hspeer.Rec
@@ -439,7 +466,7 @@ var (
 )
 
 func measure(r *run) *golden {
-	g := &golden{}
+	g := &golden{TLS: r.h.TLS}
 	g.R = len(r.lib.Delivered())
 	g.W = len(r.lib.Written())
 	g.NR, g.NW, g.NOps = r.lib.Ops()
@@ -486,6 +513,16 @@ func extent(g *golden, kind string) int {
 		return g.NOps
 	case "cancel-blocked":
 		return g.NCalls
+	case "cancel-nodl":
+		if g.TLS {
+			return 0
+		}
+		return g.NOps
+	case "precancel":
+		if g.TLS {
+			return 0
+		}
+		return 1
 	}
 	return 0
 }
@@ -521,6 +558,10 @@ func placement(kind string) string {
 		return "before-op"
 	case "cancel-blocked":
 		return "while-blocked"
+	case "cancel-nodl":
+		return "no-deadline"
+	case "precancel":
+		return "before-call"
 	}
 	return kind
 }
@@ -546,7 +587,7 @@ func one(c *core.Case, h *handshake, f fault) {
 		} else {
 			c.Count("golden_within_bounds", 1)
 		}
-		c.Count("golden_fault_points", g.R+g.W+g.NR+2*g.NW+2*g.NOps+g.NCalls)
+		c.Count("golden_fault_points", g.R+g.W+g.NR+2*g.NW+2*g.NOps+g.NCalls+extent(g, "cancel-nodl")+extent(g, "precancel"))
 	}
 
 	r := newRun(h, f)
@@ -565,6 +606,8 @@ func one(c *core.Case, h *handshake, f fault) {
 			active = nw >= f.K+1
 		case "cancel-silent", "cancel-live", "cancel-blocked":
 			active = r.cancelCalled.Load()
+		case "cancel-nodl", "precancel":
+			active = false
 		}
 	}
 
@@ -699,7 +742,14 @@ func one(c *core.Case, h *handshake, f fault) {
 	c.Count("fault_runs", 1)
 	c.Count("fault_runs:"+f.Kind, 1)
 	c.Sig("%s|%s|%d", h.Name, f.Kind, f.K)
-	cancelKind := strings.HasPrefix(f.Kind, "cancel")
+	cancelKind := strings.HasPrefix(f.Kind, "cancel") && !noDeadlineKind(f.Kind)
+	if noDeadlineKind(f.Kind) {
+		if !r.cancelCalled.Load() && r.returned && r.err == nil {
+			c.Count("cancel_point_not_reached", 1)
+			return
+		}
+		c.Count("cancellations_without_deadlines", 1)
+	}
 	if cancelKind {
 		if r.cancelCalled.Load() {
 			c.Count("cancellations_issued", 1)
@@ -726,6 +776,9 @@ func one(c *core.Case, h *handshake, f fault) {
 		if f.K == g.NW-1 {
 			c.Count("write_lost:last_write_of_handshake", 1)
 		}
+		if strings.Contains(h.Key, "saslchal") && strings.HasSuffix(h.Key, "-init") && f.K == 2 {
+			c.Count("sasl_response_writes_lost", 1) // writes: header, <auth/>, <response/>
+		}
 	}
 
 	if r.stuck != "" {
@@ -749,6 +802,14 @@ func one(c *core.Case, h *handshake, f fault) {
 		key := "failopen:" + h.Key + ":" + f.Kind
 		if cancelKind {
 			key = "failopen:cancel:" + placement(f.Kind)
+		}
+		if noDeadlineKind(f.Kind) {
+			fam := "xmpp"
+			if strings.HasPrefix(h.Key, "component") {
+				fam = "component"
+			}
+			key = "failopen:cancel:" + placement(f.Kind) + ":" + fam
+			c.Count("cancelled_without_deadlines_but_established", 1)
 		}
 		c.Violate(key, "%s (%s): fault %s at k=%d (golden run: R=%d W=%d reads=%d writes=%d ops=%d) but the constructor returned a nil error, state %#x",
 			h.Name, h.Role, f.Kind, f.K, g.R, g.W, g.NR, g.NW, g.NOps, st)
@@ -818,17 +879,21 @@ func Prop() *core.Prop {
 		Run:        runCase,
 		Exhaustive: func(string) bool { return true },
 		Require: []string{"golden_ok", "golden_within_bounds", "fault_runs:eof", "fault_runs:wrbreak", "fault_runs:rdfail", "fault_runs:wrfail",
-			"fault_runs:cancel-silent", "fault_runs:cancel-live", "fault_runs:cancel-blocked", "fault_runs:wrlost", "write_lost:last_write_of_handshake", "refusal_shapes_failed_closed", "cancellations_issued", "cancellations_that_reached_the_deadlines",
+			"fault_runs:cancel-silent", "fault_runs:cancel-live", "fault_runs:cancel-blocked", "fault_runs:wrlost", "write_lost:last_write_of_handshake", "fault_runs:cancel-nodl", "fault_runs:precancel", "cancellations_without_deadlines", "sasl_response_writes_lost", "refusal_shapes_failed_closed", "cancellations_issued", "cancellations_that_reached_the_deadlines",
 			"step_errors_logged", "step_errors_logged:negotiate", "step_errors_logged:list", "step_errors_logged:parse", "failed_steps_with_mask", "failed_closed"},
 		Witnesses: map[string]func(*core.Case){
-			"swallow:voluntary:negotiate":       witness("volfail-init", "golden", 0),
-			"outlive:cancel:before-op":          witness("plain-init", "cancel-silent", 1),
-			"failopen:cancel:before-op":         witness("plain-init", "cancel-live", 2),
-			"outlive:cancel:while-blocked":      witness("plain-init", "cancel-blocked", 0),
-			"errvalue:*stanza.Error":            witness("bind-error-nochild-init", "golden", 0),
-			"failopen:saslbind-recv:wrlost":     witness("saslbind-recv", "wrlost", 2),
-			"failopen:ws-saslbind-recv:wrlost":  witness("ws-saslbind-recv", "wrlost", 2),
-			"panic:negotiateClient:type-assert": witness("sasl-extra-advert-init", "golden", 0),
+			"swallow:voluntary:negotiate":           witness("volfail-init", "golden", 0),
+			"outlive:cancel:before-op":              witness("plain-init", "cancel-silent", 1),
+			"failopen:cancel:before-op":             witness("plain-init", "cancel-live", 2),
+			"outlive:cancel:while-blocked":          witness("plain-init", "cancel-blocked", 0),
+			"errvalue:*stanza.Error":                witness("bind-error-nochild-init", "golden", 0),
+			"failopen:saslbind-recv:wrlost":         witness("saslbind-recv", "wrlost", 2),
+			"failopen:ws-saslbind-recv:wrlost":      witness("ws-saslbind-recv", "wrlost", 2),
+			"panic:negotiateClient:type-assert":     witness("sasl-extra-advert-init", "golden", 0),
+			"failopen:cancel:before-call:component": witness("component-init", "precancel", 0),
+			"failopen:cancel:no-deadline:component": witness("component-init", "cancel-nodl", 0),
+			"failopen:cancel:no-deadline:xmpp":      witness("plain-init", "cancel-nodl", 1),
+			"failopen:cancel:before-call:xmpp":      witness("plain-init", "precancel", 0),
 		},
 	}
 }
